@@ -8,8 +8,9 @@ from autobean_refactor import models
 from autobean_refactor.models import base as mbase
 
 CASES = {'quick': 3000, 'thorough': 60000}
+SMALL_BLOCKS = 4      # runner: every 4th case keeps its stores in 2..10-token blocks
 GATES = {
-    'quick': {'evaluations': 12000, 'steps_changing_raw_list': 5500, 'ordered_view_pairs': 30, 'families_seen': 6,
+    'quick': {'kind:meta:popitem': 50, 'kind:rawmeta:setexisting': 10, 'kind:rawmeta:popitem': 10, 'cases_in_small_blocks': 50, 'evaluations': 12000, 'steps_changing_raw_list': 5500, 'ordered_view_pairs': 30, 'families_seen': 6,
               'read_probes': 100000, 'refusals_matched': 1500, 'meta_mapping_steps': 500, 'attribution_steps': 600},
     'thorough': {'evaluations': 400000, 'ordered_view_pairs': 30, 'families_seen': 6},
 }
@@ -20,11 +21,12 @@ RULE = ('case = one accepted generated document; every view of every repeated fi
         'One evaluation = after a step, every view of that family compared with filter/convert(raw list now) by identity or value, the '
         'mutated view compared with a Python list/dict given the same call (including whether it refuses), elements foreign to the '
         'mutated view keep identity and order in the raw list, and read probes (len, every index incl. negative, slices, in, '
-        'keys/values/items, get, first-match lookup) agree with the reference. Non-trivial = the step changed the raw list; distinct = '
+        'keys/values/items, get, first-match lookup) agree with the reference. Mapping calls on meta and raw_meta (set new/existing, del, pop, '
+        'pop with default, setdefault, update, popitem) are compared with an ordered dict with first-match lookup given the same call: keys '
+        'afterwards, the value stored under the key, the result of the call. Non-trivial = the step changed the raw list; distinct = '
         'hash(family, initial list, op-log prefix).')
 ASSUMPTIONS = ['documented refusals (length-changing slice assignment through a filtered view, extended-slice size mismatch, missing key, '
-               'out-of-range index) are expected exceptions; what they leave behind is C19\'s question',
-               'popitem is outside the statement and not driven']
+               'out-of-range index) are expected exceptions; what they leave behind is C19\'s question']
 
 _corpus = None
 
@@ -268,6 +270,7 @@ def run_case(col, r, idx):
         col.ev()
         fam = raw_attr.replace('_with_comments', '')
         col.count('family:' + fam)
+        col.count('kind:' + op.kind)
         if k == 'meta' or (k == 'raw_meta' and 'meta' in attr):
             col.count('meta_mapping_steps')
         if (raised is None) != (op.expect is None):
